@@ -96,6 +96,9 @@ func (w *W) Step(ev, obs []uint64) {
 	fmt.Fprintf(w.w, "E %s\nO %s\n", Ints(ev), Ints(obs))
 }
 
+// Alive tells the watchdog that the current step is making progress (for steps that are long by design).
+func (w *W) Alive() { w.prog.Add(1) }
+
 // Flush flushes buffered output (call before risky steps so a crash leaves the history on disk).
 func (w *W) Flush() { w.mu.Lock(); w.w.Flush(); w.mu.Unlock() }
 
